@@ -324,6 +324,18 @@ func (vc *FnVC) enterLoop(h *ssa.BasicBlock, li *loopInfo, st *State) {
 			if _, ok := vc.compSort[c]; !ok {
 				continue
 			}
+			if !li.nonFresh[c] && strings.HasPrefix(vc.compSort[c], "(Array Int ") && c != "ML" {
+				// inside the loop this component is only written at objects allocated by the loop
+				// itself (append, make, composite literals): everything that exists at the loop
+				// header keeps its content
+				prev := vc.cur(st, c)
+				b := vc.curBase(st, c)
+				n := vc.havocComp(st, c)
+				st.base[c] = b
+				q := vc.enc.freshName("qr")
+				vc.assume("(forall ((" + q + " Int)) (! (=> (<= " + q + " " + alloc + ") (= (select " + n + " " + q + ") (select " + prev + " " + q + "))) :pattern ((select " + n + " " + q + "))))")
+				continue
+			}
 			if vc.onlyFreshWrites(c) {
 				// every write to this component in this function is proved (frame obligations)
 				// to hit an object allocated here: the old region keeps its base version
@@ -518,6 +530,22 @@ func (vc *FnVC) loopEnv(h *ssa.BasicBlock, st *State) *Env {
 		v := vc.vals[phi]
 		if phi.Comment == "rangeindex" {
 			env.vars["#i"] = Val{k: vTerm, tv: TV{S: "(+ " + v.tv.S + " 1)", Sort: sInt, Ty: types.Typ[types.Int]}}
+			// #xs: the slice being ranged over (the operand of the len() that bounds the loop)
+			for _, ref := range *phi.Referrers() {
+				if bo, ok := ref.(*ssa.BinOp); ok && bo.Op.String() == "+" {
+					for _, r2 := range *bo.Referrers() {
+						if cmp, ok := r2.(*ssa.BinOp); ok && cmp.Op.String() == "<" && cmp.X == bo {
+							if lc, ok := cmp.Y.(*ssa.Call); ok {
+								if b, ok := lc.Call.Value.(*ssa.Builtin); ok && b.Name() == "len" {
+									if xv, defined := vc.vals[lc.Call.Args[0]]; defined {
+										env.vars["#xs"] = xv
+									}
+								}
+							}
+						}
+					}
+				}
+			}
 			continue
 		}
 		if phi.Comment != "" {
@@ -544,6 +572,7 @@ func (vc *FnVC) loopEnv(h *ssa.BasicBlock, st *State) *Env {
 // loopModifies computes the heap components a loop body may write (type-based).
 func (vc *FnVC) loopModifies(li *loopInfo) (comps []string, all bool, keep []string) {
 	set := map[string]bool{}
+	li.nonFresh = map[string]bool{}
 	var keepSet map[string]bool // intersection of what the `modifies *` calls keep
 	for b := range li.body {
 		for _, ins := range b.Instrs {
@@ -551,11 +580,15 @@ func (vc *FnVC) loopModifies(li *loopInfo) (comps []string, all bool, keep []str
 			case *ssa.Store:
 				for _, c := range vc.compsOfAddr(x.Addr) {
 					set[c] = true
+					if !rootAlloc(x.Addr) {
+						li.nonFresh[c] = true
+					}
 				}
 			case *ssa.MapUpdate:
 				m := x.Map.Type().Underlying().(*types.Map)
 				mh, mv, _, _ := vc.mapComps(m)
 				set[mh], set[mv], set["ML"] = true, true, true
+				li.nonFresh[mh], li.nonFresh[mv], li.nonFresh["ML"] = true, true, true
 			case *ssa.Alloc, *ssa.MakeMap, *ssa.MakeSlice, *ssa.MakeClosure, *ssa.MakeChan:
 				set["alloc"] = true
 				if a, ok := x.(*ssa.Alloc); ok {
@@ -610,6 +643,9 @@ func (vc *FnVC) loopModifies(li *loopInfo) (comps []string, all bool, keep []str
 				}
 				for _, c := range cs {
 					set[c] = true
+					if b, isB := x.Common().Value.(*ssa.Builtin); !isB || b.Name() != "append" {
+						li.nonFresh[c] = true
+					}
 				}
 			}
 		}
